@@ -815,3 +815,7 @@ where
         }))
     })
 }
+
+#[cfg(any(kani, ruffle_rs_h263_rs_verif))]
+#[path = "/verif/hooks/h263/parser/picture.rs"]
+mod verif_hook;
